@@ -16,6 +16,8 @@ pub struct Faults {
     pub unreachable: HashSet<String>,
     /// fail the n-th send / recv from now (0 = next), counted over all connections
     pub fail_send_at: Option<usize>,
+    /// the write call with this index times out (TimedOut / WouldBlock, alternating with the index) instead of failing hard
+    pub timeout_send_at: Option<usize>,
     pub fail_recv_at: Option<usize>,
     /// hard cap on requests per operation (turns an endless retry loop into an I/O error)
     pub max_requests_per_op: usize,
@@ -117,6 +119,12 @@ impl Write for MemStream {
                 let line = format!("IO {} send-fail", hex(self.host.as_bytes()));
                 w.lean.log(&line);
                 return Err(io::Error::new(io::ErrorKind::BrokenPipe, "injected send failure"));
+            }
+            if w.faults.timeout_send_at == Some(idx) {
+                let line = format!("IO {} send-fail", hex(self.host.as_bytes()));
+                w.lean.log(&line);
+                let kind = if idx % 2 == 0 { io::ErrorKind::TimedOut } else { io::ErrorKind::WouldBlock };
+                return Err(io::Error::new(kind, "injected write time-out"));
             }
         }
         let accept = {
